@@ -12,6 +12,16 @@ import sys
 VERIF = os.path.dirname(os.path.dirname(os.path.abspath(__file__)))
 
 HINTS = {
+    5: "ROUND %d. Earlier testers already produced the changes listed at the end; yours must be of a DIFFERENT kind "
+       "again. This time favour SMALL, plausible edits of the kind that slip through code review: an off-by-one in a "
+       "bound or a loop, '<' for '<=', a swapped pair of arguments, a condition inverted on one rarely taken branch, a "
+       "copy-paste of the neighbouring case (the wrong table, the wrong field, the wrong constant), a missing 'else', a "
+       "variable shadowed in an inner scope, a defer moved, an early 'continue' that skips the tail of a loop body, a "
+       "fallthrough/default case that changed, integer truncation or sign extension, a string compared with the wrong "
+       "case folding, a nil/empty check dropped or added, a resource released on one path only - anywhere in the code "
+       "the property depends on, including helpers it shares with other features. As before each change must need "
+       "something specific to manifest (a particular input class, configuration, sequence or interleaving) and must "
+       "leave the whole existing suite green.",
     4: "ROUND %d. Earlier testers already produced the changes listed at the end; yours must be of a DIFFERENT kind "
        "again. Think about: behaviour that only goes wrong for the SECOND logger / second goroutine / second call of a "
        "kind, caches or memo tables keyed too coarsely (by name, by level, by call site, by pointer), lazily "
